@@ -22,7 +22,7 @@ func runC03(r *core.Run) {
 	p := r.Prog
 	r.Rule("R03.1", "tests of the final DONE status are exact and non-vacuous", 3, true)
 	r.Rule("R03.2", "synthetic DONE(FINAL) only at EOM after a non-final last package; lastPkgRx tracks every delivery", 5, false)
-	r.Rule("R03.3", "NextPackageUntil drains the response on callback errors and in nil-callback mode", 2, false)
+	r.Rule("R03.3", "NextPackageUntil drains the response on callback errors and in nil-callback mode, and only then", 3, false)
 	r.Rule("R03.4", "tx side is reset after every message", 2, false)
 	r.Rule("R03.5", "end of message is recognised from the EOM bit, whatever other status bits the packet carries (R02.4)", 2, false)
 	r.Rule("R03.6", "an already queued package is handed out before any context is consulted (the drain relies on it)", 1, false)
@@ -182,6 +182,48 @@ func c03Synthetic(r *core.Run, fDoneStatus *types.Var, rule string) {
 		}
 		collect(h, c)
 	}
+	// The synthesis may have been moved to the caller: WritePacket then decides on what tryParsePackage reports, and
+	// "the token could not be read" is what a false answer of tryParsePackage has to mean on every one of its paths.
+	host := fn
+	falseMeansNoToken := true
+	if len(synth) == 0 {
+		wpHost := p.Func("tds", "Channel", "WritePacket")
+		nDeliver := len(deliver)
+		collect(wpHost, nil)
+		for _, c := range core.Calls(wpHost) {
+			h := core.StaticCallee(c)
+			if h == nil || h == fn || h == wpHost || !core.InModule(h) || len(h.Blocks) == 0 || len(h.Params) == 0 || len(c.Common().Args) == 0 || c.Common().Args[0] != ssa.Value(wpHost.Params[0]) {
+				continue
+			}
+			if _, isDefer := c.(*ssa.Defer); isDefer {
+				continue
+			}
+			collect(h, c)
+		}
+		deliver = deliver[:nDeliver]
+		if len(synth) > 0 {
+			host = wpHost
+			for _, ret := range core.Returns(fn) {
+				c, isC := core.RetVals(ret)[0].(*ssa.Const)
+				if !isC || c.Value == nil || c.Value.ExactString() != "false" {
+					continue
+				}
+				noToken := false
+				for _, g := range core.GuardsAt(ret) {
+					if x, nn, ok := core.ErrNilTest(g.Cond); ok && nn == g.Pol {
+						if ex, isEx := x.(*ssa.Extract); isEx {
+							if call, isCall := ex.Tuple.(*ssa.Call); isCall && calleeName(call) == "Byte" {
+								noToken = true
+							}
+						}
+					}
+				}
+				if !noToken {
+					falseMeansNoToken = false
+				}
+			}
+		}
+	}
 	if len(synth) == 0 {
 		r.Bad(rule, "tryParsePackage: synthetic DONE", fn.Pos(), "no send of a freshly built DonePackage found: a response whose last DONE is not final (or missing) is never terminated for the consumer")
 	}
@@ -218,13 +260,13 @@ func c03Synthetic(r *core.Run, fDoneStatus *types.Var, rule string) {
 		}
 		var all [][]core.EdgeCond
 		if call := via[s]; call != nil {
-			for _, outer := range condsTo(fn, call.Block()) {
+			for _, outer := range condsTo(host, call.Block()) {
 				for _, inner := range condsTo(s.Parent(), s.Block()) {
 					all = append(all, append(append([]core.EdgeCond(nil), outer...), inner...))
 				}
 			}
 		} else {
-			all = condsTo(fn, s.Block())
+			all = condsTo(host, s.Block())
 		}
 		if len(all) == 0 {
 			bad = "no path to the synthetic DONE could be enumerated"
@@ -241,6 +283,9 @@ func c03Synthetic(r *core.Run, fDoneStatus *types.Var, rule string) {
 				}
 				if call, ok := c.If.Cond.(*ssa.Call); ok && core.StaticCallee(call) == isEOM && c.Pol {
 					eom = true
+				}
+				if call, ok := c.If.Cond.(*ssa.Call); ok && host != fn && core.StaticCallee(call) == fn && !c.Pol && falseMeansNoToken {
+					byteFailed = true
 				}
 				// !ok of the *DonePackage assertion on lastPkgRx
 				if ex, ok := c.If.Cond.(*ssa.Extract); ok && ex.Index == 1 && !c.Pol {
@@ -263,6 +308,8 @@ func c03Synthetic(r *core.Run, fDoneStatus *types.Var, rule string) {
 				}
 			}
 			switch {
+			case !byteFailed && host != fn:
+				bad = "the synthetic DONE is sent from WritePacket after any failed attempt at end of message, but tryParsePackage also answers false after a parse error it has just reported: an unparsable last package is followed by a synthetic DONE(FINAL), the response looks complete and the error surfaces in the next one"
 			case !byteFailed:
 				bad = "the synthetic DONE can be sent although reading the next token did not fail"
 			case !eom:
@@ -274,6 +321,10 @@ func c03Synthetic(r *core.Run, fDoneStatus *types.Var, rule string) {
 		r.Check(bad == "", rule, "tryParsePackage: synthetic DONE path condition", s.Pos(), "every path to the send has: token read failed ∧ IsEOM ∧ last package not DONE(FINAL)", bad)
 		// after the send the function returns false
 		retFalse := true
+		if host != fn {
+			r.OK(rule, "tryParsePackage: returns false after the synthetic DONE", s.Pos(), "the synthesis is in WritePacket, after the attempt was reported as failed")
+			continue
+		}
 		after := s.Block()
 		if call := via[s]; call != nil {
 			after = call.Block()
@@ -400,15 +451,30 @@ func c03Drain(r *core.Run) {
 		call, ok := ex.Tuple.(*ssa.Call)
 		return ok && core.StaticCallee(call) == isDoneFinal
 	}
-	bad := ""
-	var badPos token.Pos
+	bad, over := "", ""
+	var badPos, overPos token.Pos
 	core.EnumPaths(fail, func(b *ssa.BasicBlock) bool { return false }, nil, 5000, func(pa core.Path, ended bool) {
 		last := pa.Blocks[len(pa.Blocks)-1]
 		ret, ok := last.Instrs[len(last.Instrs)-1].(*ssa.Return)
 		if !ok {
 			return
 		}
-		if pa.Has(isIdentityEOF, true) || pa.Has(isDoneFinalTrue, true) {
+		if pa.Has(isIdentityEOF, true) {
+			return
+		}
+		drainedFinal := false
+		for _, b := range pa.Blocks {
+			for _, in := range b.Instrs {
+				if c, ok := in.(*ssa.Call); ok && core.StaticCallee(c) == fn && core.IsNil(c.Call.Args[len(c.Call.Args)-1]) && !pa.Has(isDoneFinalTrue, false) {
+					drainedFinal = true
+				}
+			}
+		}
+		if drainedFinal {
+			over = "a callback error on the final DONE itself starts the draining call (it is not under the false edge of isDoneFinal(pkg)): the response is already complete, so the drain consumes the whole next response, or blocks until the context ends"
+			overPos = ret.Pos()
+		}
+		if pa.Has(isDoneFinalTrue, true) {
 			return
 		}
 		drained := false
@@ -431,6 +497,11 @@ func c03Drain(r *core.Run) {
 		r.Bad("R03.3", "NextPackageUntil: drain on callback error", failIf.Pos(), bad, "offending return at "+p.Pos(badPos))
 	} else {
 		r.OK("R03.3", "NextPackageUntil: drain on callback error", failIf.Pos(), "every path from a callback error to a return drains, or is the err == io.EOF shortcut, or already saw DONE(FINAL)")
+	}
+	if over != "" {
+		r.Bad("R03.3", "NextPackageUntil: no drain after the final DONE", failIf.Pos(), over, "offending return at "+p.Pos(overPos))
+	} else {
+		r.OK("R03.3", "NextPackageUntil: no drain after the final DONE", failIf.Pos(), "every draining call on the callback-error path lies under the false edge of isDoneFinal(pkg)")
 	}
 
 	// nil-callback mode
